@@ -171,6 +171,73 @@ pub fn retype_redeem_node(
     prune_witness_values(&node.to_construct_node()).finalize_unpruned()
 }
 
+/// Shrink `value` to the type `pruned_ty`, which is the type of `value` with some parts replaced by unit.
+///
+/// The pruned value is assembled from the bits of the parts that remain.
+/// [`simplicity::Value::prune`] is not used: it shares the bit buffer of the unpruned value,
+/// so the tag of a pruned `Left` value can alias the last bit of a removed neighbour
+/// and read as `Right` (`Left((3, 5))` pruned to `(1 × 2^8) + 1`).
+///
+/// Returns `None` if `pruned_ty` is not a shrunken version of the type of `value`.
+fn prune_value(value: &simplicity::Value, pruned_ty: &types::Final) -> Option<simplicity::Value> {
+    use simplicity::types::CompleteBound;
+
+    enum Task<'a> {
+        Prune(usize, &'a types::Final, &'a types::Final),
+        Padding(usize),
+    }
+
+    let bits: Vec<bool> = value.iter_padded().collect();
+    let mut pruned_bits: Vec<bool> = Vec::with_capacity(pruned_ty.bit_width());
+    let mut stack = vec![Task::Prune(0, value.ty(), pruned_ty)];
+    while let Some(task) = stack.pop() {
+        match task {
+            Task::Padding(n) => pruned_bits.extend(std::iter::repeat(false).take(n)),
+            Task::Prune(pos, ty, pruned) => match pruned.bound() {
+                CompleteBound::Unit => {}
+                CompleteBound::Sum(pruned_l, pruned_r) => {
+                    let (ty_l, ty_r) = ty.as_sum()?;
+                    let is_right = *bits.get(pos)?;
+                    pruned_bits.push(is_right);
+                    let (inner, pruned_inner) = match is_right {
+                        false => (ty_l, pruned_l),
+                        true => (ty_r, pruned_r),
+                    };
+                    let width = std::cmp::max(ty_l.bit_width(), ty_r.bit_width());
+                    let pruned_width = std::cmp::max(pruned_l.bit_width(), pruned_r.bit_width());
+                    let inner_pos = pos + 1 + width - inner.bit_width();
+                    stack.push(Task::Prune(
+                        inner_pos,
+                        inner.as_ref(),
+                        pruned_inner.as_ref(),
+                    ));
+                    stack.push(Task::Padding(pruned_width - pruned_inner.bit_width()));
+                }
+                CompleteBound::Product(pruned_l, pruned_r) => {
+                    let (ty_l, ty_r) = ty.as_product()?;
+                    stack.push(Task::Prune(
+                        pos + ty_l.bit_width(),
+                        ty_r.as_ref(),
+                        pruned_r.as_ref(),
+                    ));
+                    stack.push(Task::Prune(pos, ty_l.as_ref(), pruned_l.as_ref()));
+                }
+            },
+        }
+    }
+    let bytes: Vec<u8> = pruned_bits
+        .chunks(8)
+        .map(|chunk| {
+            chunk
+                .iter()
+                .enumerate()
+                .fold(0, |byte, (i, bit)| byte | (u8::from(*bit) << (7 - i)))
+        })
+        .collect();
+    let mut bit_iter = simplicity::BitIter::from(bytes.into_iter());
+    simplicity::Value::from_padded_bits(&mut bit_iter, pruned_ty).ok()
+}
+
 /// Shrink each populated witness value to the type that Simplicity infers for its node.
 ///
 /// Simplicity infers the type of a witness node from the surrounding program alone.
@@ -195,9 +262,7 @@ fn prune_witness_values(node: &Arc<WitnessNode<Elements>>) -> Arc<WitnessNode<El
                 return Ok(None);
             };
             let inferred_ty = data.node.arrow().target.finalize()?;
-            let pruned = value
-                .prune(&inferred_ty)
-                .unwrap_or_else(|| value.shallow_clone());
+            let pruned = prune_value(value, &inferred_ty).unwrap_or_else(|| value.shallow_clone());
             Ok(Some(pruned))
         }
 
